@@ -116,7 +116,7 @@ def n_scalars(desc):
     return sum(n for L in lay.values() for grp in L.values() for _, n in grp)
 
 
-def one_case(M, rec, rng, g, desc, pars, st):
+def one_case(M, rec, rng, g, desc, pars, st, clashing=False):
     cand = CC.candidate_params(desc, pars)
     keys = rng.sample(cand, rng.randint(1, min(4, len(cand)))) if rng.random() < 0.5 else []
     opts = CC.random_opts(rng, 0.2) if rng.random() < 0.3 else {}
@@ -124,7 +124,7 @@ def one_case(M, rec, rng, g, desc, pars, st):
         opts = rng.choice(({"positive_init_density": True}, {"positive_init_speed": True}, {"positive_init_queue": True},
                            {"positive_init_density": True, "positive_init_queue": True}))
     try:
-        case = CC.CompileCase(M, rng, desc, pars, st, keys, opts, own_symbols=(rng.random() < 0.5))
+        case = CC.CompileCase(M, rng, desc, pars, st, keys, opts, own_symbols=(rng.random() < 0.5 and not clashing))
     except Exception as e:
         rec.count("symbolic_step_failed")
         rec.seen("failed", repr(e)[:120])
@@ -133,13 +133,24 @@ def one_case(M, rec, rng, g, desc, pars, st):
     ctx = {"desc": desc, "pars": pars, "opts": opts, "sym_type": st, "more_out": more_out,
            "symbolic_parameters": [list(k) for k in keys], "live_order": case.order}
     Fs = {}
+    failed = {}
     for compact in (0, 1, 2):
         try:
             Fs[compact] = case.compile(compact, more_out)
         except Exception as e:
-            rec.count("compile_failed")
-            rec.seen("failed", repr(e)[:120])
-            return
+            failed[compact] = e
+    if failed and len(failed) < 3:
+        # the same stepped network compiles at one level but not at another: at the failing level an
+        # argument is missing, duplicated or left free (the levels are the same function up to concatenation)
+        c_ = sorted(failed)[0]
+        rec.violation(f"{PROP}:compact={c_}: the function cannot be built ({type(failed[c_]).__name__}) although the same network "
+                      f"compiles at level(s) {sorted(Fs)}" + (" [clashing element names]" if clashing else ""),
+                      dict(ctx, exception=repr(failed[c_])[:300]))
+        return
+    if failed:
+        rec.count("compile_failed")
+        rec.seen("failed", repr(failed[0])[:120])
+        return
     lay = D.var_layout(desc)
     names = {e["id"]: e["name"] for grp in ("links", "origins", "dests") for e in desc[grp]}
     # (i) structure
@@ -324,8 +335,13 @@ def run(M, rec, tier, seed, k, n):
             pass
         pars = g.pars()
         rec.seen("net_signatures", D.signature(desc))
+        clashing = False
+        if it % 4 == 0 and (it // 4) % 2 == 1:
+            desc, ncl = G.clash_names(desc, rng)
+            clashing = ncl > 0
+            rec.count("networks_with_clashing_argument_names", 1 if clashing else 0)
         for st in ("SX", "MX"):
-            one_case(M, rec, rng, g, desc, pars, st)
+            one_case(M, rec, rng, g, desc, pars, st, clashing)
 
 
 def finish(M, rec, write=True):
@@ -336,6 +352,7 @@ def finish(M, rec, write=True):
                 rec.gate(any(s.startswith(f"('{st}', {c},") for s in cf), f"{st}/compact={c} never checked")
         rec.gate(rec.counters.get("by_name_calls", 0) > 0, "level-0 by-name route never exercised")
         rec.gate(rec.counters.get("two_step_loops", 0) > 0, "two-step closed loop never exercised")
+        rec.gate(rec.counters.get("networks_with_clashing_argument_names", 0) > 0, "no network with clashing argument names")
         rec.gate(rec.counters.get("symbolic_step_failed", 0) + rec.counters.get("compile_failed", 0)
                  <= 0.02 * max(1, rec.counters.get("structure_checks", 0)), "too many cases failed to compile (see C07)")
     return rec.finish(
